@@ -23,9 +23,11 @@ vars == <<pub, cache, last, steps>>
 
 Req(n, k, a) == [BaseQ EXCEPT !.name = n, !.kind = k, !.acc = a, !.ver = pub[n],
                               !.slash = k \in DirKinds \cup DagKinds]   \* one URL per (n, k)
-Resp(q, tags) == IF MDevs = {} THEN IdealT(q, tags, FALSE) ELSE AsBuiltT(q, tags, FALSE, MDevs)
-Stored(n, k) == {e \in cache : e.key = <<n, k>>}
-Entry(q, r)  == [key |-> <<q.name, q.kind>>, et |-> r.et, rep |-> r.rep]
+Resp(q, tags, star) == IF MDevs = {} THEN IdealT(q, tags, star) ELSE AsBuiltT(q, tags, star, MDevs)
+\* everything that is part of the URL (Accept and its parameters are not)
+Key(q) == <<UrlId(q), q.slash, q.fmtq, q.fname, q.dl, q.scope, q.bytes, q.order, q.dups, q.cver>>
+Stored(key) == {e \in cache : e.key = key}
+Entry(q, r)  == [key |-> Key(q), et |-> r.et, rep |-> r.rep]
 NoLast == [op |-> "none", q |-> BaseQ, tags |-> {}, r |-> Err(0), sel |-> {}, cur |-> "", had |-> FALSE]
 
 Init == /\ pub = [n \in Names |-> 1]
@@ -39,25 +41,22 @@ Publish(n) == /\ steps < MaxSteps
               /\ steps' = steps + 1
               /\ UNCHANGED cache
 
-Fetch(n, k, a) ==
+\* one request of the client: q resolves through the current publication; a GET 200 with a validator is stored
+Request(op, q, tags, star) ==
   /\ steps < MaxSteps
-  /\ \E q \in {Req(n, k, a)} : \E r \in {Resp(q, {})} :       \* bound once (TLC re-evaluates LETs in actions)
-     /\ cache' = IF r.st = 200 THEN cache \cup {Entry(q, r)} ELSE cache
-     /\ last' = [NoLast EXCEPT !.op = "Fetch", !.q = q, !.r = r, !.cur = Uncond(q).rep]
+  /\ q.ns = "ipns" => (q.name \in DOMAIN pub /\ q.ver = pub[q.name])
+  /\ \E r \in {Resp(q, tags, star)} :                            \* bound once (TLC re-evaluates LETs in actions)
+     /\ cache' = IF r.st = 200 /\ q.meth = "GET" /\ r.et.k # "none" THEN cache \cup {Entry(q, r)} ELSE cache
+     /\ last' = [op |-> op, q |-> q, tags |-> tags, r |-> r,
+                 sel |-> IF r.st = 304 THEN {e \in Stored(Key(q)) : WeakEq(e.et, r.et)} ELSE {},
+                 cur |-> Uncond(q).rep,
+                 had |-> \E e \in Stored(Key(q)) : e.rep = Uncond(q).rep]
   /\ steps' = steps + 1
   /\ UNCHANGED pub
 
-Reval(n, k, a) ==
-  /\ steps < MaxSteps
-  /\ Stored(n, k) # {}
-  /\ \E q \in {Req(n, k, a)} : \E tags \in {{Opaque(e.et) : e \in Stored(n, k)}} : \E r \in {Resp(q, tags)} :
-     /\ cache' = IF r.st = 200 THEN cache \cup {Entry(q, r)} ELSE cache
-     /\ last' = [op |-> "Reval", q |-> q, tags |-> tags, r |-> r,
-                 sel |-> IF r.st = 304 THEN {e \in Stored(n, k) : WeakEq(e.et, r.et)} ELSE {},
-                 cur |-> Uncond(q).rep,
-                 had |-> \E e \in Stored(n, k) : e.rep = Uncond(q).rep]
-  /\ steps' = steps + 1
-  /\ UNCHANGED pub
+Fetch(n, k, a) == Request("Fetch", Req(n, k, a), {}, FALSE)
+Reval(n, k, a) == /\ Stored(Key(Req(n, k, a))) # {}
+                  /\ Request("Reval", Req(n, k, a), {Opaque(e.et) : e \in Stored(Key(Req(n, k, a)))}, FALSE)
 
 Next == \/ \E n \in Names : Publish(n)
         \/ \E n \in Names, k \in SKinds, a \in SAcc : Fetch(n, k, a)
